@@ -30,12 +30,12 @@ def run(r):
     r.trusted += TRUSTED_COMMON + [
         "the hash function is abstracted to an arbitrary function key -> N; the tie instantiates it with the low 63 bits of the real hash of every key used (capacities are powers of two, checked)",
         "len / capacity > 0.75 in f64 equals 4*len > 3*capacity (capacities far below 2^50)",
-        "sort_unstable_by_key on row indices is modelled by a stable insertion sort (equal indices occur only in already corrupted maps)",
+        "sort_unstable_by_key on row indices is modelled by a stable insertion sort; under the proved invariant the indices are exactly 0..n-1, so any correct sort gives the same list (Proofs/MapSort.v: a sorted permutation is unique)",
         "harness association list (Vec<(Value, Value)> with Value ==) as executable specification of the search",
     ]
     r.assumptions += [
         "refinement theorem: keys are compared by an equivalence keq that the hash respects (C15; NaN, -0 and byte/float keys are ordinary keys); outside the statement: keys with an element bit-identical to a placeholder value (f64 0x7ff8000000000001/2, chars U+2FFFF/U+2FFFE, also nested in boxes), which the code cannot tell from an empty/tombstone cell",
-        "refinement theorem covers histories of insert/remove/get/has/length with growth, un-map through the abstraction (key bound to row i, not the sort in normalized()); reverse/rotate/take/drop/join/map-construction are covered by the tie and the search only ",
+        "refinement theorem covers histories of insert/remove/get/has/length/un-map with growth (un-map with normalized()'s sort by row index: C16_map_refines_alist); present_indices - the sort step of MapKeys::reverse/rotate/take/drop - is characterised after every such history (C16_present_indices_spec); the index rewriting of reverse/rotate/take/drop, join and map-construction are covered by the tie and the search only",
     ]
     if not r.harness(["c16"]):
         return
